@@ -168,6 +168,15 @@ Theorem C17_auth_refines_spec_c :
 Proof. exact auth_do_tok_at_refines_spec_c. Qed.
 Print Assumptions C17_auth_refines_spec_c.
 
+Theorem C17_auth_warm_refines_spec_c :
+  forall p cn bd sc tb tsc t0,
+    wf_body bd -> replayable bd -> wf_body tb -> replayable tb ->
+    let a := auth_do_tokw_at p cn bd sc tb tsc t0 in
+    (aw_res a, aw_time a, attempts (aw_first a), attempts (aw_second a), attempts (aw_token a), attempts (aw_third a))
+    = spec_authw_at_c p cn bd sc tb tsc t0.
+Proof. exact auth_do_tokw_at_refines_spec_c. Qed.
+Print Assumptions C17_auth_warm_refines_spec_c.
+
 Theorem C17_blob_push_refines_spec_c :
   forall authc p cn bd sc tb tsc,
     wf_body bd -> replayable bd -> wf_body tb -> replayable tb ->
